@@ -220,7 +220,8 @@ func (s *memoryStore) RemoveNode(nodeID store.NodeID) error {
 // empty list, if none are available.
 func (s *memoryStore) ActiveHosts(kind string, limit int) ([]store.Node, error) {
 	seenSince := time.Now().Add(-store.ExpireInterval)
-	r := make([]store.Node, 0, limit)
+	// limit comes from the network, it must not size an allocation
+	r := []store.Node{}
 
 	s.mu.Lock()
 	defer s.mu.Unlock()
